@@ -55,7 +55,8 @@ CUSTOM_POOL = [None, {}, {':--x': 'a'}, {':--x': 'b'}, {':--x': 'a', ':--y': 'b'
                {':--x': 'p', ':--\\58 ': 'div'}, {':--\\58 ': 'div', ':--x': 'p'}]
 PATTERNS = ['p', 'p ', 'P', 'a > b', 'a>b', ':is(a, b)', ':is(b, a)', 'svg|circle', '*|circle', 'a:--x', 'a:--y', ':--y',
             ':nth-child(2n+1)', ':nth-child(odd)', '[type="a"]', "[type='a']", '[type=a i]', ':lang(en)', ':lang("en")',
-            ':-soup-contains("x")', 'li:has(> a)', 'p.a\x00', 'p.a\ufffd', '\x00', '\ufffd']
+            ':-soup-contains("x")', 'li:has(> a)', 'div.alpha.beta.gamma.delta.epsilon > p.note.warning', '.k.m.K#i1#i2',
+            '.beta.alpha.gamma.delta.epsilon', 'p.a\x00', 'p.a\ufffd', '\x00', '\ufffd']
 FGCFG = FG.Cfg(ns_forms=True, prefixes=('svg', 'x'), custom=('--x',), max_depth=2)
 _doc = [None]
 
